@@ -2,8 +2,17 @@
 from vp.sched.stream import SchedStream
 from vp.props.c01 import TRUSTED, ASSUMES  # noqa
 
+_DEEP = {  # foo[-P2] => foo, warm start at 4 of 1..8: 4/foo AND 5/foo have only pre-start parents
+    "icp": 1, "fcp": 8, "startcp": 4, "options": {"startcp": "4"}, "tasks": ["foo"],
+    "sections": [{"rec": "P1", "lines": [{"lhs": None, "rhs": "foo"},
+                                          {"lhs": {"task": "foo", "off": -2, "out": "succeeded"}, "rhs": "foo"}]}],
+    "customs": {}, "opt": [["foo", "succeeded", False]], "runahead": 2, "queues": {}, "seed": 9, "fail_rate": 0,
+    "custom_rate": 1.0, "disorder": 0, "ops": []}
 STREAMS = [SchedStream("C46", name="sched-warm", feat={"warm": True, "abs": True, "sequential": True},
-                       n_quick=28, n_thorough=600, extra_oracles=["C01"])]
+                       n_quick=28, n_thorough=600, extra_oracles=["C01"]),
+           # longer runs with deeper offsets: several instances after the start point whose parents are ALL before it
+           SchedStream("C46", name="sched-warm-deep", feat={"warm": True, "deep_offsets": True, "max_fcp": 7},
+                       n_quick=24, n_thorough=500, extra_oracles=["C01"], corpus=[_DEEP])]
 META = {
     "level_text": ("Coq theorems over the pool automaton: no instance before the start point is ever spawned; a submission needs every "
                    "prerequisite true over outputs completed in the run or atoms marked pre-satisfied, and the harness marks exactly the "
